@@ -6,8 +6,8 @@ func {{ .InitName }}(mux goahttp.Muxer, {{ .VarName }} {{ .FuncName }}) func(r *
 			if merr != nil {
 				return merr
 			}
-			p := v.(*{{ .Payload.Ref }})
-			if err := {{ .VarName }}(mr, p); err != nil {
+			{{ .PayloadVar }} := v.(*{{ .Payload.Ref }})
+			if err := {{ .VarName }}(mr, {{ .PayloadVar }}); err != nil {
 				return err
 			}
 			{{- template "partial_request_elements" .Payload.Request }}
@@ -17,7 +17,7 @@ func {{ .InitName }}(mux goahttp.Muxer, {{ .VarName }} {{ .FuncName }}) func(r *
 			}
 			{{- end }}
 			{{- if .Payload.Request.PayloadInit }}
-				{{- with multipartFieldCode .Payload.Request.PayloadInit }}
+				{{- with multipartFieldCode .Payload.Request.PayloadInit $.PayloadVar }}
 			{{ . }}
 				{{- end }}
 			{{- end }}
